@@ -392,10 +392,17 @@ func init() {
 				c.emit(e)
 			}
 		}
-		for _, segs := range []int{1<<20 + 3, c.pick(1<<20+77, 1<<22+5)} {
+		for vi, segs := range []int{1<<20 + 3, 1<<20 + 3, 1 << 20, 1<<20 + 1, c.pick(1<<20+77, 1<<22+5)} {
 			ls := make(orb.LineString, segs+1)
+			x, y := 0.0, 0.0
 			for j := range ls {
-				ls[j] = orb.Point{float64(j) / 3, float64(j%7) / 3}
+				ls[j] = orb.Point{x, y}
+				if vi == 0 {
+					x, y = float64(j+1)/3, float64((j+1)%7)/3
+				} else { // steps of arbitrary lengths: their sum depends on the order in which it is taken
+					x += 0.01 + c.rng.Float64()
+					y += c.rng.Float64() - 0.5
+				}
 			}
 			N := 2 + c.rng.Intn(9)
 			e := map[string]interface{}{"k": "fcount", "fn": "Resample", "nreq": N, "nt": 1}
@@ -528,6 +535,10 @@ func init() {
 					return x + 360
 				}
 				return x
+			}
+			// (the ends bit for bit - the ranks below take longitudes modulo 360, where 180 and -180 are one place)
+			if N >= 2 && len(out) >= 2 && (out[0] != first || out[len(out)-1] != last) {
+				e["online"] = 0
 			}
 			vals := []float64{unwrap(first[0]), first[1], unwrap(last[0]), last[1]}
 			for _, p := range out {
